@@ -242,7 +242,7 @@ theorem interleaving_atomic (c : Cfg V E) (init : Pid → Entry V E) (progs : Ti
         fun h => ⟨s.hist p, h, Or.inl rfl⟩
       cases hpc : (s.thr t).pc with
       | idle => rw [hpc] at hp'; cases hp'
-      | locked _ _ => rw [hpc] at hmid; exact same (hmid.2 k hk)
+      | locked _ _ _ => rw [hpc] at hmid; exact same (hmid.2 k hk)
       | timed _ _ _ => rw [hpc] at hmid; exact same (hmid.2 k hk)
       | compared _ _ _ _ => rw [hpc] at hmid; exact same (hmid.2.2 k hk)
       | stored _ _ _ _ => rw [hpc] at hmid; exact same (hmid.2.2 k hk)
@@ -387,8 +387,8 @@ example : (announceM exO (catches Frappy.Generated.C05.callbackCaught) (fun _ =>
 
 def exCfg : Cfg Nat Nat := ⟨exO, [1, 2], 1⟩
 def exProgs : Tid → List (Op Nat Nat)
-  | 0 => [.accAcquire, .announce 0 (.value 6 false), .accRelease]
-  | 1 => [.announce 0 (.error 1)]
+  | 0 => [.accAcquire, .announce 0 (.value 6 false) .absent, .accRelease]
+  | 1 => [.announce 0 (.error 1) (.ticks 0)]
   | _ => []
 def exInit : Pid → Entry Nat Nat := fun _ => exE
 def exS0 : Sys Nat Nat := Sys.init exInit exProgs 101
